@@ -294,6 +294,8 @@ def _get_path(grid, obj, paths):
     try:
         for i, path in enumerate(paths):
             obj = obj[path]
+            if obj is None:
+                return NOT_FOUND  # A null cell is an absent tag
             if i != len(paths)-1:
                 if not isinstance(obj, Ref):
                     return NOT_FOUND  # Only a reference can be followed
